@@ -238,3 +238,9 @@ V('C09', 'declare-savepoint-cacheable', 'edb/server/compiler/compiler.py',
   "        sql = f'SAVEPOINT {pgname}'.encode()\n\n        cacheable = False\n",
   "        sql = f'SAVEPOINT {pgname}'.encode()\n\n",
   'C09.R13', 'DeclareSavepoint:not-cacheable')
+
+# round 5: the stored seeded breaks this property's check reports, replayed as variants
+from sa.selftest import VP  # noqa
+VP('C09', 'C09-e1', 'C09.R12', 'slot=_tx_count')
+VP('C09', 'C09-e2', 'C09.R4', 'modaliases')
+VP('C09', 'C09-e3', 'C09.R12', 'reaches-worker')
